@@ -317,6 +317,18 @@ def UU():
     return None
 
 
+def VV():
+    """an automatically named cells takes a name a sub space uses for a child space"""
+    m = _reset()
+    A_ = m.new_space("A")
+    S = m.new_space("S", bases=A_)
+    S.new_space("Cells1")
+    c = A_.new_cells(formula="lambda x: x")
+    if c.name in S.cells and c.name in S.spaces:
+        return "A.new_cells() was named %s: S has a child space and a derived cells of that name" % c.name
+    return None
+
+
 # ------------------------------------------------------------------ C03
 def B():
     """redefining a base cells overwrites copies deriving from an override in between"""
